@@ -416,6 +416,42 @@ func r32OneInsertPerFeature(c *core.Ctx) {
 	c.Check(R, "extent-covers-every-feature/"+f.Name, update.Pos(), !noExt && extArg,
 		"every iteration feeds this feature's geometry to NewExtentFromGeometry/AddGeometry and the accumulated extent is what is merged into gpkg_contents",
 		"an iteration can complete without adding the feature's geometry to the page extent, or the extent passed to UpdateGeometryExtent is not the accumulated one")
+	// the extent accumulator is only updated by the two known idioms; anything else (ext.Add(other), …) is not understood
+	{
+		var acc ssa.Value
+		if len(update.Call.Args) == 3 {
+			acc = update.Call.Args[2]
+		}
+		unknown := ""
+		if phi, ok := acc.(*ssa.Phi); ok {
+			for _, b := range fn.Blocks {
+				for _, in := range b.Instrs {
+					ci, ok := in.(*ssa.Call)
+					if !ok || len(ci.Call.Args) == 0 {
+						continue
+					}
+					recvIsAcc := ci.Call.Args[0] == ssa.Value(phi)
+					for _, e := range phi.Edges {
+						if ci.Call.Args[0] == e {
+							recvIsAcc = true
+						}
+					}
+					if !recvIsAcc {
+						continue
+					}
+					id := core.StaticCalleeID(ci)
+					if strings.HasPrefix(id, "github.com/go-spatial/geom.Extent.") && id != "github.com/go-spatial/geom.Extent.AddGeometry" {
+						unknown += fmt.Sprintf("%s @%s; ", id, c.P.Pos(ci.Pos()))
+					}
+				}
+			}
+		}
+		if unknown == "" {
+			c.OK(R, "extent-accumulated-by-known-idioms/"+f.Name, update.Pos(), "the page extent is only started with NewExtentFromGeometry and grown with AddGeometry")
+		} else {
+			c.Unknown(R, "extent-accumulated-by-known-idioms/"+f.Name, update.Pos(), "the page extent is updated through a method the rule does not know ("+unknown+"); e.g. Extent.Add(nil) means `the whole universe` in go-spatial, and NewExtentFromGeometry returns nil for an empty geometry")
+		}
+	}
 	c.Floor(R, 6)
 }
 
